@@ -1,11 +1,26 @@
-From Coq Require Import List NArith Bool.
-From NV Require Import Gen.Fat.
-Open Scope N_scope.
-Theorem C15_source_facts :
-  (fat12_min_valid, fat12_max_valid, fat12_end_mark) = (2, 4079, 4095) /\
-  (fat16_min_valid, fat16_max_valid, fat16_end_mark) = (2, 65519, 65535) /\
-  (fat32_min_valid, fat32_max_valid, fat32_end_mark) = (2, 268435439, 268435455) /\
-  (fat12_threshold, fat16_threshold) = (4085, 65525) /\ fs_default_atime = false /\
-  de_sizeof = 32 /\ lfn_sizeof = 32 /\ bpb_sizeof = 36 /\ lfn_checksum_standard = true.
-Proof. repeat split; reflexivity. Qed.
-Print Assumptions C15_source_facts.
+(* C15 -- Mid-operation states are flagged dirty and never harm unrelated files.
+   The theorem covers the bracket discipline: every store of an API operation lies inside a
+   mark_dirty bracket (flag set before, restored after, also on exceptions), except the
+   access-time update of a read and the stores of the flag itself.  That the bracketed stores
+   leave bystanders intact and end in a consistent volume is checked on every intermediate
+   image of the implementation (correspondence / oracle), see DESIGN.md. *)
+From Coq Require Import List Arith Bool.
+From NV Require Import Fat.SkelDefs Fat.SkelProofs Gen.FatSkel Fat.SkelTheorems.
+Import ListNotations.
+
+Theorem C15_skeleton_check : check15 = true.
+Proof. exact check15_holds. Qed.
+Print Assumptions C15_skeleton_check.
+
+Theorem C15_pokes_inside_dirty_bracket_partial : forall f body t,
+  In f entries_api -> nth_error skeleton f = Some body -> exec skeleton all_on f body t ->
+  pokes_ok is_d exempt15 0 [] t = true /\ final_depth is_d 0 t = 0.
+Proof. exact skel_pokes_inside_dirty_bracket. Qed.
+Print Assumptions C15_pokes_inside_dirty_bracket_partial.
+
+Example C15_nonvacuous :
+  (* a store under the plain write lock, outside mark_dirty, is rejected *)
+  ok_prog_from (fun _ => false) is_d all_on no_exempt 0 [[SWith LW [SPoke 0]]] = false /\
+  ok_prog_from (fun _ => false) is_d all_on no_exempt 0 [[SWith LD [SWith LW [SPoke 0]]]] = true /\
+  (1 < List.length entries_api) /\ atime_edges <> [] /\ flag_functions <> [].
+Proof. repeat split; try reflexivity; try (vm_compute; repeat constructor); discriminate. Qed.
